@@ -43,7 +43,7 @@ func init() {
 	gen.RegisterOp("c02", "e2e-f27", func(c *gen.Ctx, raw json.RawMessage) any {
 		return c02E2E(c, gen.Into[c02E2EIn](raw))
 	})
-	gen.RegisterOp("c02", "e2e-f28", func(c *gen.Ctx, raw json.RawMessage) any {
+	gen.RegisterOp("c02", "e2e-f31", func(c *gen.Ctx, raw json.RawMessage) any {
 		return c02E2E(c, gen.Into[c02E2EIn](raw))
 	})
 	gen.RegisterOp("c02", "populate", func(_ *gen.Ctx, raw json.RawMessage) any {
@@ -1441,7 +1441,7 @@ func runC02(c *gen.Ctx) error {
 			}
 		}
 		// suite VG next to suite V in the runs whose peers speak Connect: GET against the
-		// reference-mode reference server only without compression (known finding F28, below)
+		// reference-mode reference server only without compression (known finding F31, below)
 		if in.Mode == "client" || in.Mode == "server" || in.Mode == "both" {
 			nGetCases := 5
 			if k == 0 {
@@ -1481,21 +1481,21 @@ func runC02(c *gen.Ctx) error {
 	for _, st := range []string{"clientStream", "halfDuplex", "fullDuplex"} {
 		f27.Cases = append(f27.Cases, c02GenTC(r, st, 0, 0, false, false))
 	}
-	// known finding F28: a GET call is never compressed by the reference client (connect-go compresses
+	// known finding F31: a GET call is never compressed by the reference client (connect-go compresses
 	// a GET only to make an over-long URL fit), while the reference server in reference mode insists on
 	// the permutation's compression: only that symptom may appear, and only on the GET calls
-	f28 := c02E2EIn{Mode: gen.Pick(rg, []string{"client", "both"}), Versions: []int{1, 2}, Protos: []int{1}, Codecs: []int{1, 2}, Comps: []int{1, allComps[1+rg.Intn(5)]}, NoRerun: true}
+	f31 := c02E2EIn{Mode: gen.Pick(rg, []string{"client", "both"}), Versions: []int{1, 2}, Protos: []int{1}, Codecs: []int{1, 2}, Comps: []int{1, allComps[1+rg.Intn(5)]}, NoRerun: true}
 	for i := 0; i < 3; i++ {
 		tc := c02GenTC(rg, "unary", 1, rg.Intn(2), rg.Chance(2, 5), false)
 		tc.LaterDefs = nil
 		tc.Method, tc.Get = "idempotent", true
-		f28.GetCases = append(f28.GetCases, tc)
+		f31.GetCases = append(f31.GetCases, tc)
 	}
 	post := c02GenTC(rg, "unary", 1, 1, false, false)
 	post.LaterDefs = nil
-	f28.GetCases = append(f28.GetCases, post)
-	ins = append(ins, f07, f27, f28)
-	opsOf = append(opsOf, "e2e-f07", "e2e-f27", "e2e-f28")
+	f31.GetCases = append(f31.GetCases, post)
+	ins = append(ins, f07, f27, f31)
+	opsOf = append(opsOf, "e2e-f07", "e2e-f27", "e2e-f31")
 	c.DoParallelOps(opsOf, ins, 4)
 	return nil
 }
